@@ -351,7 +351,8 @@ where
                 let s = &mut self.slots[cur];
                 let total = s.model.len();
                 let prefix = frac_to(a[0], total);
-                let cont = if a[1] % 2 == 0 { 5 } else { 0 };
+                // dropped early, or consumed by next / fold / for_each / count
+                let cont = if a[1] % 2 == 0 { 5 } else { [0, 1, 2, 4][((a[0] >> 3) % 4) as usize] };
                 if prefix > 0 && prefix < total && cont == 5 {
                     self.labels |= dump::L_DRAIN_CUT;
                 }
@@ -783,7 +784,11 @@ where
 
     fn algebra_op(&mut self, kind: u64, swap: bool, mode: u64, _x: u64) -> Result<(), Bad> {
         self.note_pair();
-        let (xi, yi) = if swap { (self.cur ^ 1, self.cur) } else { (self.cur, self.cur ^ 1) };
+        let (xi, mut yi) = if swap { (self.cur ^ 1, self.cur) } else { (self.cur, self.cur ^ 1) };
+        if _x % 8 == 7 {
+            // both operands are the same object
+            yi = xi;
+        }
         let x = &self.slots[xi];
         let y = &self.slots[yi];
         let want = Self::truth(kind, &Self::ids(&x.model), &Self::ids(&y.model));
@@ -824,7 +829,18 @@ where
             ("a == b", a.set == b.set, ma == mb),
             ("b == a", b.set == a.set, mb == ma),
         ];
-        for (name, got, want) in checks {
+        // each set with itself (the same object on both sides)
+        let self_checks: [(&str, bool, bool); 8] = [
+            ("a.is_subset(a)", a.set.is_subset(&a.set), true),
+            ("a.is_superset(a)", a.set.is_superset(&a.set), true),
+            ("a.is_disjoint(a)", a.set.is_disjoint(&a.set), ma.is_empty()),
+            ("a == a", a.set == a.set, true),
+            ("b.is_subset(b)", b.set.is_subset(&b.set), true),
+            ("b.is_superset(b)", b.set.is_superset(&b.set), true),
+            ("b.is_disjoint(b)", b.set.is_disjoint(&b.set), mb.is_empty()),
+            ("b == b", b.set == b.set, true),
+        ];
+        for (name, got, want) in checks.into_iter().chain(self_checks) {
             if got != want {
                 bad!(if name.contains("==") { eq_prop } else { "C07" }, "predicate", "{name} = {got}, mathematically {want} (|a| = {}, |b| = {})", ma.len(), mb.len());
             }
@@ -837,7 +853,11 @@ where
         K: Clone,
     {
         self.note_pair();
-        let (xi, yi) = if swap { (self.cur ^ 1, self.cur) } else { (self.cur, self.cur ^ 1) };
+        let (xi, mut yi) = if swap { (self.cur ^ 1, self.cur) } else { (self.cur, self.cur ^ 1) };
+        if (self.next_gen as u64 + kind) % 7 == 0 {
+            // `&a op &a`
+            yi = xi;
+        }
         let x = &self.slots[xi];
         let y = &self.slots[yi];
         world::with(|w| w.default_plan = x.plan);
